@@ -137,6 +137,10 @@ fn find_inv_error_locations_levinson_durbin(syn: &[GF]) -> Result<Vec<GF>, Error
 
     // find smallest v such that H_v is nonsingular
     let mut v = syn.iter().take_while(|s| **s == GF(0)).count() + 1;
+    if v > t {
+        // H_1, ..., H_t are all singular: more than t errors
+        return Err(ErrorDecodingError::TooManyErrors);
+    }
 
     // initialize y = [1/b_v, 0, ..., 0]
     let mut y = Vec::with_capacity(t);
